@@ -47,29 +47,25 @@ def _child_main(eng, fn, name):
 
 
 def explore(eng, names, out_root, jobs=15, deadline=None, max_paths=200000):
-    """explore each harness in its own process tree; returns {name: [records]}"""
+    """explore each harness in a process of its own (at most `jobs` at a time); returns {name: [records]}"""
     os.makedirs(out_root, exist_ok=True)
-    sem = multiprocessing.Semaphore(max(jobs - 1, 1))
     results = {}
     gc.collect()
     gc.freeze()
-    pids = []
-    for name in names:
+    todo = list(names)
+    running = {}
+
+    def launch(name):
         fn = find_harness(eng, name)
         d = os.path.join(out_root, name.replace('::', '.'))
         shutil.rmtree(d, ignore_errors=True)
         os.makedirs(d)
-        counter = multiprocessing.Value('i', 0)
         sys.stdout.flush()
         sys.stderr.flush()
-        sem.acquire()
         pid = os.fork()
         if pid == 0:
             try:
                 eng.out_dir = d
-                eng.sem = sem
-                eng.has_token = True
-                eng.path_counter = counter
                 eng.max_paths = max_paths
                 eng.deadline = deadline
                 eng.is_root = False      # so that finish_process exits this process
@@ -85,9 +81,10 @@ def explore(eng, names, out_root, jobs=15, deadline=None, max_paths=200000):
                 sys.stderr.write('harness root failed: %r\n' % (e,))
             finally:
                 os._exit(3)
-        pids.append((pid, name, d))
-    for pid, name, d in pids:
-        _, st = os.waitpid(pid, 0)
+        running[pid] = (name, d)
+
+    def collect(pid, st):
+        name, d = running.pop(pid)
         recs = []
         for f in glob.glob(os.path.join(d, 'p.*.jsonl')):
             with open(f) as fh:
@@ -96,8 +93,15 @@ def explore(eng, names, out_root, jobs=15, deadline=None, max_paths=200000):
                     if line:
                         recs.append(json.loads(line))
         if st != 0:
-            recs.append({'type': 'error', 'detail': 'harness root exit status %d' % st})
+            recs.append({'type': 'error', 'detail': 'harness process exit status %d' % st})
         results[name] = recs
+
+    while todo or running:
+        while todo and len(running) < max(jobs, 1):
+            launch(todo.pop(0))
+        pid, st = os.wait()
+        if pid in running:
+            collect(pid, st)
     return results
 
 
